@@ -21,7 +21,14 @@ func zzC04Addr(tag string) common.Address {
 
 // zzC04Len gives field number i its length under length pattern pat: the patterns 0..L rotate the lengths
 // 0..L over the fields, so every field takes every length and neighbouring fields always differ in length.
-func zzC04Len(pat, i, L int) int { return (pat + i) % (L + 1) }
+// A negative pattern gives every field the full length L (used for map keys in the map-order harnesses, so
+// that the order of two keys is decided by their symbolic content).
+func zzC04Len(pat, i, L int) int {
+	if pat < 0 {
+		return L
+	}
+	return (pat + i) % (L + 1)
+}
 
 // zzC04Enc encodes with a fresh sink.
 func zzC04Enc(ser func(*common.ZeroCopySink)) []byte {
@@ -58,6 +65,11 @@ func zzC04NoPanic(ds []zzC04Decoder) {
 	}
 	d := ds[i]
 	buf := zzsym.BytesUpTo("buf", zzsym.Param("B_"+d.name))
+	if first := zzsym.Param("FIRST"); first >= 0 {
+		// input class "buffers whose first byte is FIRST" (e.g. 0xFF: a 9-byte count prefix), used where the
+		// fully arbitrary buffer of that size has too many paths
+		zzsym.Assume(len(buf) >= 1 && buf[0] == byte(first))
+	}
 	src := common.NewZeroCopySource(buf)
 	err := d.dec(src)
 	zzsym.Assert(src.Pos() <= uint64(len(buf)), "the decoder never reads past the buffer")
@@ -89,10 +101,29 @@ func zzC04AssertSameList(a, b [][]byte) {
 // no-panic harness never looks at the numeric value.
 func zzC04BigSetBytes(z *big.Int, buf []byte) *big.Int { return z }
 
-func zzC04U64Map(tag string, n, pat, L int) map[uint64][]byte {
+// zzC04VarU64 is a symbolic uint64 confined to one of the four size classes of the variable-length integer
+// encoding (1, 3, 5 or 9 bytes). The class of field i under magnitude pattern mag is (mag+i)%4, so over the four
+// patterns every field takes every class and neighbouring fields differ; the encoder/decoder then do not fork per field.
+func zzC04VarU64(tag string, mag, i int) uint64 {
+	v := zzsym.U64(tag)
+	switch (mag + i) % 4 {
+	case 0:
+		zzsym.Assume(v < 0xFD)
+	case 1:
+		zzsym.Assume(v >= 0xFD && v <= 0xFFFF)
+	case 2:
+		zzsym.Assume(v > 0xFFFF && v <= 0xFFFFFFFF)
+	default:
+		zzsym.Assume(v > 0xFFFFFFFF)
+	}
+	return v
+}
+
+// zzC04U64Map: n entries; key i lies in size class mag+step*i (step 0: all keys in one class).
+func zzC04U64Map(tag string, n, pat, L, mag, step int) map[uint64][]byte {
 	m := make(map[uint64][]byte)
 	for i := 0; i < n; i++ {
-		m[zzsym.U64(tag+".key")] = zzsym.Bytes(tag+".val", zzC04Len(pat, i, L))
+		m[zzC04VarU64(tag+".key", mag, step*i)] = zzsym.Bytes(tag+".val", zzC04Len(pat, i, L))
 	}
 	return m
 }
@@ -124,10 +155,11 @@ func ZZ_C04_SCM_RoundTrip() {
 	L := zzsym.Param("L")
 	N := zzsym.Param("N")
 	pat := zzsym.Choose("pat", L+1)
+	mag := zzsym.Choose("mag", 4)
 	switch zzsym.Choose("type", 10) {
 	case 0:
-		p := &RegisterSideChainParam{Address: zzC04Addr("addr"), ChainId: zzsym.U64("chain"), Router: zzsym.U64("router"),
-			Name: string(zzsym.Bytes("name", zzC04Len(pat, 0, L))), BlocksToWait: zzsym.U64("wait"),
+		p := &RegisterSideChainParam{Address: zzC04Addr("addr"), ChainId: zzC04VarU64("chain", mag, 0), Router: zzC04VarU64("router", mag, 1),
+			Name: string(zzsym.Bytes("name", zzC04Len(pat, 0, L))), BlocksToWait: zzC04VarU64("wait", mag, 2),
 			CCMCAddress: zzsym.Bytes("ccmc", zzC04Len(pat, 1, L)), ExtraInfo: zzsym.Bytes("extra", zzC04Len(pat, 2, L))}
 		// the decoder deliberately rejects BlocksToWait == 0 ("minimal value of BlocksToWait is 1")
 		zzsym.Assume(p.BlocksToWait != 0)
@@ -139,7 +171,7 @@ func ZZ_C04_SCM_RoundTrip() {
 			zzsym.Cover("rt-RegisterSideChainParam")
 		}
 	case 1:
-		p := &ChainidParam{Chainid: zzsym.U64("chain"), Address: zzC04Addr("addr")}
+		p := &ChainidParam{Chainid: zzC04VarU64("chain", mag, 0), Address: zzC04Addr("addr")}
 		q := new(ChainidParam)
 		if zzC04Dec(zzC04Enc(p.Serialization), q.Deserialization) {
 			zzsym.Assert(*q == *p, "ChainidParam round trip")
@@ -147,8 +179,8 @@ func ZZ_C04_SCM_RoundTrip() {
 		}
 	case 2:
 		n := zzsym.Choose("n", N+1)
-		p := &RegisterRedeemParam{RedeemChainID: zzsym.U64("rchain"), ContractChainID: zzsym.U64("cchain"), Redeem: zzsym.Bytes("redeem", zzC04Len(pat, 0, L)),
-			CVersion: zzsym.U64("cver"), ContractAddress: zzsym.Bytes("contract", zzC04Len(pat, 4, L)), Signs: zzC04BytesList("sign", n, pat, L)}
+		p := &RegisterRedeemParam{RedeemChainID: zzC04VarU64("rchain", mag, 0), ContractChainID: zzC04VarU64("cchain", mag, 1), Redeem: zzsym.Bytes("redeem", zzC04Len(pat, 0, L)),
+			CVersion: zzC04VarU64("cver", mag, 2), ContractAddress: zzsym.Bytes("contract", zzC04Len(pat, 4, L)), Signs: zzC04BytesList("sign", n, pat, L)}
 		q := new(RegisterRedeemParam)
 		if zzC04Dec(zzC04Enc(p.Serialization), q.Deserialization) {
 			zzsym.Assert(q.RedeemChainID == p.RedeemChainID && q.ContractChainID == p.ContractChainID && q.CVersion == p.CVersion &&
@@ -160,7 +192,7 @@ func ZZ_C04_SCM_RoundTrip() {
 			zzsym.Cover("rt-RegisterRedeemParam")
 		}
 	case 3:
-		p := &BtcTxParamDetial{PVersion: zzsym.U64("pver"), FeeRate: zzsym.U64("feerate"), MinChange: zzsym.U64("minchange")}
+		p := &BtcTxParamDetial{PVersion: zzC04VarU64("pver", mag, 1), FeeRate: zzC04VarU64("feerate", mag, 2), MinChange: zzC04VarU64("minchange", mag, 3)}
 		q := new(BtcTxParamDetial)
 		if zzC04Dec(zzC04Enc(p.Serialization), q.Deserialization) {
 			zzsym.Assert(*q == *p, "BtcTxParamDetial round trip")
@@ -168,8 +200,8 @@ func ZZ_C04_SCM_RoundTrip() {
 		}
 	case 4:
 		n := zzsym.Choose("n", N+1)
-		p := &BtcTxParam{Redeem: zzsym.Bytes("redeem", zzC04Len(pat, 0, L)), RedeemChainId: zzsym.U64("rchain"), Sigs: zzC04BytesList("sig", n, pat, L),
-			Detial: &BtcTxParamDetial{PVersion: zzsym.U64("pver"), FeeRate: zzsym.U64("feerate"), MinChange: zzsym.U64("minchange")}}
+		p := &BtcTxParam{Redeem: zzsym.Bytes("redeem", zzC04Len(pat, 0, L)), RedeemChainId: zzC04VarU64("rchain", mag, 0), Sigs: zzC04BytesList("sig", n, pat, L),
+			Detial: &BtcTxParamDetial{PVersion: zzC04VarU64("pver", mag, 1), FeeRate: zzC04VarU64("feerate", mag, 2), MinChange: zzC04VarU64("minchange", mag, 3)}}
 		q := new(BtcTxParam)
 		if zzC04Dec(zzC04Enc(p.Serialization), q.Deserialization) {
 			zzsym.Assert(bytes.Equal(q.Redeem, p.Redeem) && q.RedeemChainId == p.RedeemChainId && *q.Detial == *p.Detial, "BtcTxParam round trip: redeem script, chain id, detail")
@@ -181,8 +213,8 @@ func ZZ_C04_SCM_RoundTrip() {
 		}
 	case 5:
 		n := zzsym.Choose("nasset", N+1)
-		m := zzsym.Choose("nproxy", N+1)
-		p := &RegisterAssetParam{OperatorAddress: zzC04Addr("addr"), ChainId: zzsym.U64("chain"), AssetMap: zzC04U64Map("asset", n, pat, L), LockProxyMap: zzC04U64Map("proxy", m, pat+1, L)}
+		m := N - n // complementary sizes: both maps take every size 0..N
+		p := &RegisterAssetParam{OperatorAddress: zzC04Addr("addr"), ChainId: zzC04VarU64("chain", mag, 3), AssetMap: zzC04U64Map("asset", n, pat, L, mag, 1), LockProxyMap: zzC04U64Map("proxy", m, pat+1, L, mag+1, 1)}
 		raw := zzC04Enc(p.Serialization)
 		q := new(RegisterAssetParam)
 		if zzC04Dec(raw, q.Deserialization) {
@@ -190,29 +222,29 @@ func ZZ_C04_SCM_RoundTrip() {
 			zzC04AssertSameU64Map(p.AssetMap, q.AssetMap)
 			zzC04AssertSameU64Map(p.LockProxyMap, q.LockProxyMap)
 			zzsym.Assert(bytes.Equal(zzC04Enc(q.Serialization), raw), "RegisterAssetParam: re-encoding the decoded value gives the same bytes")
-			if len(p.AssetMap) == N && len(p.LockProxyMap) == N {
+			if len(p.AssetMap) == N || len(p.LockProxyMap) == N {
 				zzsym.Cover("rt-RegisterAssetParam-full")
 			}
 			zzsym.Cover("rt-RegisterAssetParam")
 		}
 	case 6:
 		n := zzsym.Choose("nasset", N+1)
-		m := zzsym.Choose("nproxy", N+1)
-		p := &AssetBind{AssetMap: zzC04U64Map("asset", n, pat, L), LockProxyMap: zzC04U64Map("proxy", m, pat+1, L)}
+		m := N - n
+		p := &AssetBind{AssetMap: zzC04U64Map("asset", n, pat, L, mag, 1), LockProxyMap: zzC04U64Map("proxy", m, pat+1, L, mag+1, 1)}
 		raw := zzC04Enc(p.Serialization)
 		q := new(AssetBind)
 		if zzC04Dec(raw, q.Deserialization) {
 			zzC04AssertSameU64Map(p.AssetMap, q.AssetMap)
 			zzC04AssertSameU64Map(p.LockProxyMap, q.LockProxyMap)
 			zzsym.Assert(bytes.Equal(zzC04Enc(q.Serialization), raw), "AssetBind: re-encoding the decoded value gives the same bytes")
-			if len(p.AssetMap) == N && len(p.LockProxyMap) == N {
+			if len(p.AssetMap) == N || len(p.LockProxyMap) == N {
 				zzsym.Cover("rt-AssetBind-full")
 			}
 			zzsym.Cover("rt-AssetBind")
 		}
 	case 7:
-		p := &SideChain{Address: zzC04Addr("addr"), ChainId: zzsym.U64("chain"), Router: zzsym.U64("router"),
-			Name: string(zzsym.Bytes("name", zzC04Len(pat, 0, L))), BlocksToWait: zzsym.U64("wait"),
+		p := &SideChain{Address: zzC04Addr("addr"), ChainId: zzC04VarU64("chain", mag, 0), Router: zzC04VarU64("router", mag, 1),
+			Name: string(zzsym.Bytes("name", zzC04Len(pat, 0, L))), BlocksToWait: zzC04VarU64("wait", mag, 2),
 			CCMCAddress: zzsym.Bytes("ccmc", zzC04Len(pat, 1, L)), ExtraInfo: zzsym.Bytes("extra", zzC04Len(pat, 2, L))}
 		q := new(SideChain)
 		if zzC04Dec(zzC04Enc(zzC04EncE(p.Serialization)), q.Deserialization) {
@@ -263,21 +295,24 @@ func ZZ_C04_SCM_MapOrder() {
 	N := zzsym.Param("N")
 	switch zzsym.Choose("type", 3) {
 	case 0:
-		p := &RegisterAssetParam{OperatorAddress: zzC04Addr("addr"), ChainId: zzsym.U64("chain"), AssetMap: zzC04U64Map("asset", N, 0, L), LockProxyMap: zzC04U64Map("proxy", N, 1, L)}
+		// all keys in one size class (chosen by mag): the order of two keys is decided by their symbolic value
+		mag := zzsym.Choose("mag", 4)
+		p := &RegisterAssetParam{OperatorAddress: zzC04Addr("addr"), ChainId: 7, AssetMap: zzC04U64Map("asset", N, 0, L, mag, 0), LockProxyMap: zzC04U64Map("proxy", N, 1, L, mag, 0)}
 		a := append([]byte(nil), zzC04Enc(p.Serialization)...)
 		zzsym.Assert(bytes.Equal(a, zzC04Enc(p.Serialization)), "RegisterAssetParam encodes to the same bytes regardless of map iteration order")
 		if len(p.AssetMap) == N && len(p.LockProxyMap) == N {
 			zzsym.Cover("order-RegisterAssetParam")
 		}
 	case 1:
-		p := &AssetBind{AssetMap: zzC04U64Map("asset", N, 0, L), LockProxyMap: zzC04U64Map("proxy", N, 1, L)}
+		mag := zzsym.Choose("mag", 4)
+		p := &AssetBind{AssetMap: zzC04U64Map("asset", N, 0, L, mag, 0), LockProxyMap: zzC04U64Map("proxy", N, 1, L, mag, 0)}
 		a := append([]byte(nil), zzC04Enc(p.Serialization)...)
 		zzsym.Assert(bytes.Equal(a, zzC04Enc(p.Serialization)), "AssetBind encodes to the same bytes regardless of map iteration order")
 		if len(p.AssetMap) == N && len(p.LockProxyMap) == N {
 			zzsym.Cover("order-AssetBind")
 		}
 	case 2:
-		p := &BindSignInfo{BindSignInfo: zzC04StrMap("sign", N, zzsym.Choose("pat", L+1), L)}
+		p := &BindSignInfo{BindSignInfo: zzC04StrMap("sign", N, -1, L)}
 		a := append([]byte(nil), zzC04Enc(p.Serialization)...)
 		zzsym.Assert(bytes.Equal(a, zzC04Enc(p.Serialization)), "BindSignInfo encodes to the same bytes regardless of map iteration order")
 		if len(p.BindSignInfo) == N {
